@@ -36,9 +36,13 @@ pub enum Sup<T> {
 
 fn progress_signature() -> (counters::Counters, u64, usize) {
     let mut c = counters::snapshot();
-    // periodic ticks are not progress towards releasing anybody
-    c.TICKS_STARTED = 0;
-    c.TICKS_DONE = 0;
+    // periodic ticks are not progress towards releasing anybody - except while the harness itself waits
+    // for the ticks it has fed to be handled (quiescence protocol, lockstep tick delivery)
+    let ph = PHASES[PHASE.load(Ordering::SeqCst) as usize % PHASES.len()];
+    if !(ph == "quiesce" || ph == "tick") {
+        c.TICKS_STARTED = 0;
+        c.TICKS_DONE = 0;
+    }
     (c, OPS_DONE.load(Ordering::SeqCst), crate::val::log_len())
 }
 
